@@ -8,7 +8,7 @@ with the facts regenerated from `/repo/pool` (`C27.cfgOfSource`); `Reachable` qu
 interleavings of invocations, releases, connection deaths, readiness and cancellations.
 -/
 import TdModel.Model.C27
-import TdModel.Lemmas.C27g
+import TdModel.Lemmas.C28b
 
 namespace TdModel.C27
 
@@ -77,6 +77,47 @@ theorem monitor_limit_holders (m n : Nat) (s : State) (h : Reachable m n s) :
     cases hd : (s.conns[c]).dead with
     | true => left; simp [isDead, hx, hd]
     | false => right; exact hI.live c _ hx hd
+
+/-- The complete executable monitor `holdsB` that the drivers evaluate on every state of every replayed
+implementation trace holds in every reachable state (limit, total, holders, live reader and valid id of
+every connection in a channel, valid ids in the free list). -/
+theorem holdsB_reachable (m n : Nat) (s : State) (h : Reachable m n s) : holdsB s = true := by
+  have hI := reachable_inv h
+  obtain ⟨as, hr⟩ := h
+  have hK := kinv_run cfgOfSource as (kinv_init m n) hr
+  obtain ⟨h1, h2, h3⟩ := monitor_limit_holders m n s ⟨as, hr⟩
+  have hpos : ∀ c, 1 ≤ holders s c → c < s.conns.length := by
+    intro c hc
+    rcases Nat.lt_or_ge c s.conns.length with h' | h'
+    · exact h'
+    · have := hI.dang c h'; omega
+  unfold holdsB
+  simp only [Bool.and_eq_true, List.all_eq_true, List.mem_range, decide_eq_true_eq]
+  refine ⟨⟨⟨⟨h1, h2⟩, ?_⟩, ?_⟩, ?_⟩
+  · intro c hc
+    obtain ⟨a, b⟩ := h3 c hc
+    refine ⟨a, ?_⟩
+    rcases b with b | b
+    · simp [b]
+    · simp [b]
+  · intro e he
+    refine ⟨?_, ?_⟩
+    · obtain ⟨i, x, hx, hk⟩ := hK.rd_inbox e he
+      unfold hasReader
+      rw [List.any_eq_true]
+      refine ⟨x, List.mem_of_getElem? hx, ?_⟩
+      cases hp : x.pc <;> rw [hp] at hk <;> simp [pcKey] at hk <;> simp [hk]
+    · apply hpos
+      have : 1 ≤ nInbox s e.2 := by
+        unfold nInbox
+        exact List.countP_pos_iff.2 ⟨e, he, by simp⟩
+      simp only [holders]; omega
+  · intro c hc
+    apply hpos
+    have : 1 ≤ nFree s c := by
+      unfold nFree
+      exact List.count_pos_iff.2 hc
+    simp only [holders]; omega
 
 /-- Pre-fix behaviour (D16): without the `Dead()` check on the transfer path a dead connection is
 handed out — max 1, two callers, the connection dies while it sits in the second caller's channel. -/
